@@ -11,8 +11,11 @@ mod c03;
 mod c06;
 mod c07;
 mod c08;
+mod c11;
 mod c14;
 mod c15;
+mod c16;
+mod c17;
 mod c18;
 
 use engine::{Engine, Tier};
@@ -77,8 +80,11 @@ fn main() {
         "C06" => c06::run(&eng, replay.as_deref()),
         "C07" => c07::run(&eng, replay.as_deref()),
         "C08" => c08::run(&eng, replay.as_deref()),
+        "C11" => c11::run(&eng, replay.as_deref()),
         "C14" => c14::run(&eng, replay.as_deref()),
         "C15" => c15::run(&eng, replay.as_deref()),
+        "C16" => c16::run(&eng, replay.as_deref()),
+        "C17" => c17::run(&eng, replay.as_deref()),
         "C18" => c18::run(&eng, replay.as_deref()),
         _ => {
             eprintln!("unknown property {}", id);
